@@ -54,7 +54,10 @@ FilterSeq(p, xs) ==
          ELSE IF r = BoolV(FALSE) THEN FilterSeq(p, Tail(xs))
          ELSE <<r>> \o FilterSeq(p, Tail(xs))
 
-KeysOf(f, xs) == [j \in 1..Len(xs) |-> Apply(f, xs[j])]
+(* "seqc" is a key function that is not a function of the item: the j-th call returns
+   (j - 1) % c (a round-robin dispatcher).  It is evaluated once per item, in order; only used
+   where the operator sees a single key lifetime, so that j is the item's position. *)
+KeysOf(f, xs) == [j \in 1..Len(xs) |-> IF f.n = "seqc" THEN IntV((j - 1) % f.c) ELSE Apply(f, xs[j])]
 
 PrefixSums(ns) == [j \in 1..Len(ns) |-> SumSeq(SubSeq(ns, 1, j))]
 
@@ -227,28 +230,35 @@ Expired(op, ref, last, t) ==
     \/ op.active >= 0 /\ t >= ref + op.active
     \/ op.inactive >= 0 /\ t >= last + op.inactive
 
-RECURSIVE SessFold(_, _, _, _, _, _, _, _, _)
-SessFold(op, ts, cl, i, ref, last, curStart, cur, acc) ==
+(* The closing mapper is consulted only for an item that does not expire the window.  The
+   mapper "every2" is not a function of the item: it accepts every second *consultation*
+   (a budget); `calls` counts the consultations so far. *)
+Closes(op, x, calls) ==
+    IF op.closing.n = "none" THEN FALSE
+    ELSE IF op.closing.n = "every2" THEN (calls + 1) % 2 = 0
+    ELSE Test(op.closing, x) = BoolV(TRUE)
+
+RECURSIVE SessFold(_, _, _, _, _, _, _, _, _, _)
+SessFold(op, ts, xs, i, ref, last, curStart, cur, acc, calls) ==
     \* cur: indices in the open session, curStart: step in which it was opened
     IF i > Len(ts) THEN (IF cur = <<>> THEN acc ELSE Append(acc, Child(curStart, cur, 0)))
-    ELSE LET t == ts[i] IN
+    ELSE LET t == ts[i]
+             calls2 == IF op.closing.n = "none" THEN calls ELSE calls + 1 IN
       IF Expired(op, ref, last, t)     \* also the first item: with a zero timeout it is
                                        \* already "at least 0 after" its own reference
-      THEN SessFold(op, ts, cl, i + 1, t, t, i, <<i>>,
-                    IF cur = <<>> THEN acc ELSE Append(acc, Child(curStart, cur, i)))
-      ELSE IF cl[i]
+      THEN SessFold(op, ts, xs, i + 1, t, t, i, <<i>>,
+                    IF cur = <<>> THEN acc ELSE Append(acc, Child(curStart, cur, i)), calls)
+      ELSE IF Closes(op, xs[i], calls)
       THEN IF op.incl
-           THEN SessFold(op, ts, cl, i + 1, t, t, i, <<>>,
-                         Append(acc, Child(curStart, Append(cur, i), i)))
-           ELSE SessFold(op, ts, cl, i + 1, t, t, i, <<i>>,
-                         IF cur = <<>> THEN acc ELSE Append(acc, Child(curStart, cur, i)))
-      ELSE SessFold(op, ts, cl, i + 1, ref, t, curStart, Append(cur, i), acc)
+           THEN SessFold(op, ts, xs, i + 1, t, t, i, <<>>,
+                         Append(acc, Child(curStart, Append(cur, i), i)), calls2)
+           ELSE SessFold(op, ts, xs, i + 1, t, t, i, <<i>>,
+                         IF cur = <<>> THEN acc ELSE Append(acc, Child(curStart, cur, i)), calls2)
+      ELSE SessFold(op, ts, xs, i + 1, ref, t, curStart, Append(cur, i), acc, calls2)
 
 Sessions(op, xs) ==
     LET ts == [j \in 1..Len(xs) |-> V(Apply(op.tm, xs[j]))]
-        cl == [j \in 1..Len(xs) |-> IF op.closing.n = "none" THEN FALSE
-                                     ELSE Test(op.closing, xs[j]) = BoolV(TRUE)]
-    IN IF xs = <<>> THEN <<>> ELSE SessFold(op, ts, cl, 1, ts[1], ts[1], 1, <<>>, <<>>)
+    IN IF xs = <<>> THEN <<>> ELSE SessFold(op, ts, xs, 1, ts[1], ts[1], 1, <<>>, <<>>, 0)
 
 Plan(op, xs) ==
     CASE op.op = "roll"       -> Windows(op.w, op.s, Len(xs))
